@@ -106,6 +106,28 @@ def representations(ctx, n):
                        dict(kind=nm, L=L.tolist(), X=(Xa if nm in ('int8', 'uint8', 'uint32') else Xi).tolist(),
                             idx=idx.tolist()),
                        observed=np.asarray(got_d).tolist(), expected=np.asarray(want_d).tolist())
+    # indicators of points held by the preprocessor in a narrow / unsigned integer type (e.g. 8-bit data): same numbers
+    for bt in ('uint8', 'int16', 'uint16', 'int64'):
+      ctx.count('representation', 1)
+      ctx.hist('representation', 'indices into a %s bank' % bt)
+      try:
+        with warnings.catch_warnings():
+          warnings.simplefilter('ignore')
+          eb = Covariance(preprocessor=Xa.astype(bt)).fit(np.arange(min(npts, 6)))
+          eb.components_ = L
+          if ref_da is None:
+            ref_da = est.pair_distance(Pa)
+          got = eb.pair_distance(idx)
+          got_s = eb.pair_score(idx)
+          got_r = eb.pair_distance(idx[:, ::-1])
+      except Exception as ex:
+        ctx.fail_input('representation', 'indicators into a %s preprocessor raise %s' % (bt, type(ex).__name__),
+                       dict(kind=bt, L=L.tolist(), X=Xa.tolist(), idx=idx.tolist()), observed=str(ex)[:200])
+        continue
+      if not (np.array_equal(got, ref_da) and np.array_equal(got_s, -ref_da) and np.array_equal(got_r, ref_da)):
+        ctx.fail_input('representation', 'indicators into a preprocessor of dtype %s give different results (or d(i,j) != d(j,i))' % bt,
+                       dict(kind=bt, L=L.tolist(), X=Xa.tolist(), idx=idx.tolist()),
+                       observed=[np.asarray(got).tolist(), np.asarray(got_r).tolist()], expected=np.asarray(ref_da).tolist())
     # single-pair batch
     one = est.pair_distance(P[:1])
     ctx.count('representation', 1)
@@ -138,6 +160,9 @@ def run(ctx):
                           "model and implementation disagree on %s" % dict(
                               estimator=rec.get('estimator'), L=rec['L'].tolist(), pairs=rec['pts'].tolist()))
   for rec in recs[:(len(recs) if thorough or not ok else 150)] + trecs:
+    if falsify_rec(ctx, rec, 'views_agree'):
+      break
+  for rec in mc.scaled_L_cases(ctx.rng, 160 if thorough else 32):      # transformations learned in very large / small units
     if falsify_rec(ctx, rec, 'views_agree'):
       break
   representations(ctx, 60 if thorough else 12)
